@@ -112,24 +112,31 @@ def _chunk(items):
                 exp.append({'d': e['d'], 'n': e['n'], 'id': e['id'], 'cls': list(e['cls']), 'attrs': attrs, 'text': ' '.join(e['text']).split(), 'sc': bool(e['sc'])})
             flags = {'multiline_text_with_children': bool(v['mlkids']), 'leaf_inner_break': bool(row.get('leaf') or v['mltext']),
                      'field_text_with_children': bool(v['fieldkids'])}
-            case = {'abbr': v['abbr'], 'row': row['name'], 'flags': flags}
-            try:
-                with common.Alarm(10):
-                    out = emmet.expand(v['abbr'], _cfg(row))
-            except Exception as ex:
-                bad.append(('expand raised', dict(case, exception=type(ex).__name__, site=common.innermost_emmet_frame(ex))))
-                continue
-            try:
-                got = _content(out, row)
-                ev = _events(out, row)
-            except ph.LexError as ex:
-                bad.append(('output is not well-formed markup', dict(case, output=out, lexer=str(ex))))
-                continue
-            if got != exp:
-                bad.append(('content differs', dict(case, expected=exp, actual=got, output=out)))
-                continue
-            traces.append({'tid': tid0 * 16 + ri, 'abbr': v['abbr'], 'row': row['name'], 'flags': flags, 'indent_clause': bool(row['clause']),
-                           'events': ev, 'output': out})
+            variants = [(v['abbr'], tid0 * 16 + ri)]
+            if '>' in v['abbr'] and '^' not in v['abbr'] and '(' not in v['abbr'] and '{' not in v['abbr'].rsplit('>', 1)[0] and ri < 8 \
+                    and not any(it[:1] in '.#[' for it in v['abbr'].rsplit('>', 1)[1].split('+')):      # an implicit name would be taken from the text node
+                # the last run of siblings written below an empty text node: no element is opened, the same tags at the same depths
+                head, tail = v['abbr'].rsplit('>', 1)
+                variants.append((head + '>{}>' + tail, tid0 * 16 + 8 + ri))
+            for abbr, tid in variants:
+                case = {'abbr': abbr, 'row': row['name'], 'flags': flags}
+                try:
+                    with common.Alarm(10):
+                        out = emmet.expand(abbr, _cfg(row))
+                except Exception as ex:
+                    bad.append(('expand raised', dict(case, exception=type(ex).__name__, site=common.innermost_emmet_frame(ex))))
+                    continue
+                try:
+                    got = _content(out, row)
+                    ev = _events(out, row)
+                except ph.LexError as ex:
+                    bad.append(('output is not well-formed markup', dict(case, output=out, lexer=str(ex))))
+                    continue
+                if got != exp:
+                    bad.append(('content differs', dict(case, expected=exp, actual=got, output=out)))
+                    continue
+                traces.append({'tid': tid, 'abbr': abbr, 'row': row['name'], 'flags': flags, 'indent_clause': bool(row['clause']),
+                               'events': ev, 'output': out})
     return [('BAD', bad), ('TRACES', traces)]
 
 
